@@ -134,7 +134,8 @@ class Evaluator(object):
             'dict': dict, 'frozenset': frozenset, 'min': min, 'max': max,
             'sum': sum, 'any': any, 'all': all, 'sorted': sorted,
             'enumerate': enumerate, 'zip': zip, 'abs': abs, 'str': str,
-            'int': int, 'repr': repr,
+            'int': int, 'repr': repr, 'iter': iter, 'filter': filter,
+            'map': map,
             'reversed': lambda x: list(reversed(list(x))),
         }
         self.functions.update(functions or {})
@@ -382,7 +383,10 @@ class Evaluator(object):
                 self.block(st.body, env)
             except self.CONTROL:
                 raise
-            except Exception as exc:
+            except BaseException as exc:
+                # a stand-in may raise an exception that is not an
+                # Exception (an interrupt): `except Exception` lets it pass
+                base_only = not isinstance(exc, Exception)
                 if isinstance(exc, Raised):
                     name = exc.text.split('(')[0].split(':')[0].strip()
                     if isinstance(exc.value, Obj) and exc.value.has('kind'):
@@ -397,7 +401,8 @@ class Evaluator(object):
                     else:
                         names = [ast.unparse(h.type)]
                     if names is None or name in names or \
-                            'Exception' in names or 'BaseException' in names:
+                            ('Exception' in names and not base_only) or \
+                            'BaseException' in names:
                         eobj = getattr(exc, 'value', None)
                         if not isinstance(eobj, Obj):
                             eobj = Obj('exception', kind=name,
@@ -589,6 +594,20 @@ class Evaluator(object):
                     return self.module.fold_name(e.attr, self.clsname)
                 except Unfoldable:
                     pass
+            # class attributes of the object's own class and its bases
+            todo = [base.__dict__['_cls']]
+            seen_c = set()
+            while todo:
+                c = todo.pop(0)
+                if c in seen_c or not isinstance(c, str):
+                    continue
+                seen_c.add(c)
+                if c in getattr(self.module, 'classes', {}):
+                    try:
+                        return self.module.fold_name(e.attr, c)
+                    except Unfoldable:
+                        pass
+                todo.extend(self.class_bases.get(c, []))
             hook = cm.get('__getattr__')
             if hook is not None and not self._in_hook(hook, base):
                 ret, _ = self.call(hook, [e.attr], self_obj=base)
@@ -706,6 +725,15 @@ class Evaluator(object):
     def binop(self, op, a, b, node):
         if isinstance(a, Unknown) or isinstance(b, Unknown):
             return Unknown('binop')
+        try:
+            return self._binop(op, a, b, node)
+        except (TypeError, ValueError, ZeroDivisionError) as exc:
+            if isinstance(a, Obj) or isinstance(b, Obj):
+                self.err(node, 'operator applied to an abstract object')
+            # the evaluated code itself fails here
+            raise Raised('%s(%r)' % (type(exc).__name__, str(exc)))
+
+    def _binop(self, op, a, b, node):
         if isinstance(op, ast.Add):
             return a + b
         if isinstance(op, ast.Sub):
@@ -811,6 +839,13 @@ class Evaluator(object):
         python callables"""
         if isinstance(v, tuple) and v and v[0] == 'closure':
             return lambda *a, **k: self.call_closure(v, list(a), k)
+        if isinstance(v, tuple) and v and v[0] == 'pyfunc':
+            return v[1]
+        if isinstance(v, tuple) and v and v[0] == 'method':
+            def bound(*a, **k):
+                ret, ys = self.call(v[1], list(a), k, self_obj=v[2])
+                return ys if is_generator(v[1]) else ret
+            return bound
         return v
 
     def x_Lambda(self, e, env):
@@ -914,6 +949,27 @@ class Evaluator(object):
                 if isinstance(obj, Obj):
                     return obj.has(name)
                 return hasattr(obj, name)
+            if n == 'getattr' and n not in env and \
+                    n not in self.functions and len(e.args) in (2, 3) \
+                    and not e.keywords:
+                obj = self.expr(e.args[0], env)
+                name = self.expr(e.args[1], env)
+                if isinstance(obj, Obj) and isinstance(name, str):
+                    if obj.has(name):
+                        return getattr(obj, name)
+                    cm = self.class_methods.get(obj.__dict__['_cls'], {})
+                    if name in cm:
+                        return ('method', cm[name], obj)
+                    if len(e.args) == 3:
+                        return self.expr(e.args[2], env)
+                    raise Raised('AttributeError(%r)' % name)
+                if not isinstance(obj, (Obj, Unknown, Sym, tuple)) and \
+                        isinstance(name, str):
+                    if len(e.args) == 3:
+                        return getattr(obj, name, self.expr(e.args[2], env))
+                    if not hasattr(obj, name):
+                        raise Raised('AttributeError(%r)' % name)
+                    return getattr(obj, name)
         f = self.expr(e.func, env)
         args = []
         for a in e.args:
@@ -950,6 +1006,8 @@ class Evaluator(object):
         if isinstance(f, tuple) and f[0] == 'pyfunc':
             if 'key' in kwargs:
                 kwargs = dict(kwargs, key=self.as_callable(kwargs['key']))
+            if f[1] in (map, filter) and args:
+                args[0] = self.as_callable(args[0])
             if f[1] in (list, tuple, sorted, set, frozenset, sum, any, all,
                         min, max, enumerate, zip) and args and isinstance(
                     args[0], Obj):
